@@ -13,8 +13,8 @@ CHECKS = {
 }
 CHECKS['C16'] = dict(cat='model_checking', engine='z3-bmc',
     tech='z3 (QF_BV) bounded model checking with a symbolic schedule + inductive-invariant proof, over a line-level transition system regenerated from the AST of supp/remote.py; counterexample schedules replayed on real threads',
-    text='For each scenario of up to 3 client threads (prepare / first call / close sequences) the schedule is a vector of solver variables; unsat at bound = instruction count means no line-level interleaving violates one-launch / no-exception / all-answered / no-deadlock. An inductive check (Init=>R, R&T=>R, R&final=>safe) with the explicitly enumerated reachable set as candidate invariant gives the same verdict without a bound. Server side: CrossHair over the real Server.run with scripted messages.',
-    note='_run summarised by its Popen/Client assignments (both succeed at once); opaque argument expressions evaluated concretely; line granularity; close() racing a call on another thread is outside; translation validated each run by explicit enumeration and by replaying schedules on real threads with a settrace scheduler; real subprocess/socket behaviour outside.',
+    text='For each scenario of up to 3 client threads (prepare / first call / close sequences) the schedule is a vector of solver variables; unsat at bound = instruction count means no line-level interleaving violates one-launch / no-exception / all-answered / no-deadlock. An inductive check (Init=>R, R&T=>R, R&final=>safe) with the explicitly enumerated reachable set as candidate invariant gives the same verdict without a bound. Server side: CrossHair over the real Server.run with scripted messages. Launch handshake: CrossHair over the real Environment._run with scripted connection failures and a symbolic non-decreasing clock (retry before the deadline, launch-timeout exception after it, one process).',
+    note='in the interleaving model _run is summarised by its Popen/Client assignments (both succeed at once; the retry loop is checked sequentially in the launch-handshake queries); opaque argument expressions evaluated concretely; line granularity; close() racing a call on another thread is outside; translation validated each run by explicit enumeration and by replaying schedules on real threads with a settrace scheduler; real subprocess/socket behaviour outside.',
     ref='3/C16')
 _T_NOTE = ('program shapes enumerated (parser is C); supp dict/set displays rewritten to equality-only containers so identifiers stay symbolic; UndefinedName/find_id_loc/builtin table stubbed; reference semantics validated against real CPython each run; candidates replayed on real text with the untransformed supp. Imports, match, del, stdlib corpus outside.')
 for _p, _t in (('C01', 'reads that succeed in some CPython execution are visible (flow attached, name in names_at)'),
@@ -27,27 +27,27 @@ for _p, _t in (('C01', 'reads that succeed in some CPython execution are visible
         note=_T_NOTE, ref='3/' + _p)
 CHECKS['C04'] = dict(cat='other',
     tech='CrossHair/z3: one shared analysis state queried in a solver-chosen order of its read sites, symbolic identifiers, differential against a fresh state per read',
-    text='Bounded symbolic execution of the real extractor/Flow memoisation: for every shape (loops, nested branches), every permutation of the read sites as query history (solver variable, enumerated) and every equality pattern of symbolic identifiers, each read yields the same alternatives as on a fresh analysis; plus lint-vs-fresh-query agreement through the public API on canonical namings.',
-    note=_T_NOTE + ' Query history is a finite selector (E); project-level request histories are C09.', ref='3/C04')
+    text='Bounded symbolic execution of the real extractor/Flow memoisation: for every shape (loops, nested branches), every permutation of the read sites as query history (solver variable, enumerated) and every equality pattern of symbolic identifiers, each read yields the same alternatives as on a fresh analysis; plus lint-vs-fresh-query agreement through the public API on canonical namings; solver-enumerated request histories on one long-lived Project (attribute, relative-import, recursive-factory and star-cycle requests) vs a new project; lint verdict vs the same position queried alone on 110 programs with several reads per physical line.',
+    note=_T_NOTE + ' Query history is a finite selector (E); histories with file edits are C09.', ref='3/C04')
 CHECKS['C17'] = dict(cat='other',
-    tech='CrossHair/z3: set iteration order of identity-hashed objects as solver-chosen permutation (rebound `set` in supp.name/scope/evaluator), real location()/exported names compared with the insertion-order run',
-    text='Solver-enumerated (E): every iteration order of the sets built while resolving a multiply-bound name (6^3 orders per program, 6 programs incl. cross-module from-import/attribute access) gives the same location() result and exported names, with alternatives in source order. This replaces fresh-process/hash-seed runs, which are outside the technique.',
+    tech='CrossHair/z3: set iteration order of identity-hashed objects as solver-chosen permutation (rebound `set` in supp.name/scope/evaluator/assistant/project/linter), real location()/exported names compared with the insertion-order run',
+    text='Solver-enumerated (E): every iteration order of the sets built while resolving a multiply-bound name (6^3 orders per request, 13 requests incl. cross-module access, a qualified import held by a cached module and a module present in several roots) gives the same result, also when the request is repeated on one project, with alternatives in source order and the first configured root winning. This replaces fresh-process/hash-seed runs, which are outside the technique.',
     note='`set` rebound to a subclass with harness-chosen iteration order; dict order and os.listdir order not varied; each path is one concrete run.', ref='3/C17')
 CHECKS['C13'] = dict(cat='other',
     tech='CrossHair/z3: every AST node position is a symbolic affine expression of layout parameters (derived from and validated against the real parser); real extractor / bisect / Location comparisons run on symbolic positions; differential against the canonical layout',
-    text='Bounded symbolic execution: for each shape, naming and layout structure (enumerated), the numeric layout parameters (blank/comment lines, indentation width, continuation indent, extra spaces) are solver variables; every read must resolve to the same alternatives as in the one-statement-per-line layout for all parameter values. Sampled concrete layouts are additionally pushed through real lint (codes and messages in order).',
-    note='layout structures (which statements are joined/one-lined/broken) enumerated; positions from an affine model validated against ast.parse each run; find_id_loc stubbed (C11); identifiers concrete.', ref='3/C13')
+    text='Bounded symbolic execution: for each shape, naming and layout structure (enumerated), the numeric layout parameters (blank/comment lines, indentation width, continuation indent, extra spaces) are solver variables; every read must resolve to the same alternatives as in the one-statement-per-line layout for all parameter values. Sampled concrete layouts are additionally pushed through real lint (codes and messages in order). Companion (E): go-to-definition into another project module under 1680 layouts of the edited file.',
+    note='layout structures (which statements are joined - also behind a broken line - / one-lined / broken after an opening bracket or a comma) enumerated; positions from an affine model validated against ast.parse each run; find_id_loc stubbed (C11); identifiers concrete.', ref='3/C13')
 CHECKS['C12'] = dict(cat='other',
-    tech='CrossHair/z3: (a) real assist() on a symbolic line left of the cursor (all strings up to the bound, all of Unicode) vs longest-identifier-suffix reference; (b,c) solver-enumerated cursor positions through real assist() vs the unmarked analysis',
+    tech='CrossHair/z3: (a) real assist() on a symbolic line left of the cursor (all strings up to the bound, all of Unicode) vs longest-identifier-suffix reference; (a2) solver-enumerated concrete lines over ASCII and non-ASCII identifier characters; (b,c) solver-enumerated cursor positions through real assist() vs the unmarked analysis',
     text='(a) is genuinely symbolic: the text left of the cursor is a solver variable and the whole of assist() runs on it; confirmed = no string of the bounded length yields a prefix other than the identifier characters left of the cursor. (b),(c) are solver-enumerated over a program family: every offset inside/at the end of every name read, attribute and import name gives the exact prefix, sorted duplicate-free marker-free proposals, equal to what the analysis of the unmarked source makes visible.',
     note='(a) Source replaced by a harness object (symbolic line, empty tree), project stubbed; (b,c) each path is one concrete run; real-file corpus outside.', ref='3/C12')
 CHECKS['C08'] = dict(cat='other',
     tech='CrossHair/z3 solver-enumerated (program, typing-state mutation, cursor) over adversarial and family programs through the real lint/assist/location; oracle real compile()',
     text='Solver-enumerated (E) only: each path is one concrete (text, cursor). Within the stated finite domain every case is covered: lint returns a list with exactly one E01 carrying CPython message/position iff compile() fails; assist and location return well-formed results and raise only SyntaxError and only when the cursor-marked text does not compile; RecursionError counts as a violation.',
-    note='No symbolic variable survives the parser, so this is no stronger than exhausting the finite domain (about 100 programs x 5 mutations x all cursors in the first 9 lines/40 columns); stdlib/real-file corpus outside the technique; non-termination only observable as timeout.', ref='3/C08')
+    note='No symbolic variable survives the parser, so this is no stronger than exhausting the finite domain (about 110 programs x 5 mutations x all cursors in the first 9 lines/40 columns); stdlib/real-file corpus outside the technique; non-termination only observable as timeout.', ref='3/C08')
 CHECKS['C11'] = dict(cat='other',
     tech='CrossHair/z3: def/class header lines built from a symbolic identifier and spacing through the real find_def_loc/FuncScope/ClassScope (S); import statements and whole programs solver-enumerated (E)',
-    text='(S) the identifier in a def / async def / class header is a solver variable (letters that collide with the header keywords), the reported position must be where the identifier was put; (E) nine import forms over colliding identifiers, and every binding of ~60 programs: text at the reported position is the identifier, lint/location/all_names agree.',
+    text='(S) the identifier in a def / async def / class header is a solver variable (letters that collide with the header keywords), the reported position must be where the identifier was put; (E) nine import forms over colliding identifiers, and every binding of ~200 programs (comments and continuations next to names, form feed, cross-module and self-import programs): text at the reported position is the identifier, lint/location/all_names agree.',
     note='Source.lines pre-filled from symbolic pieces, template AST node; symbolic-container transform; ASCII; real-file corpus outside.', ref='3/C11')
 CHECKS['C07'] = dict(cat='other',
     tech='CrossHair/z3 over the real Project.norm_package/get_module/list_packages with a symbolic in-memory file system (solver variables decide which files exist), vs real importlib.util.resolve_name and a PathFinder model validated against real importlib',
@@ -55,19 +55,19 @@ CHECKS['C07'] = dict(cat='other',
     note='file system stubbed in memory, sys.path not consulted, __import__ of extension modules faked; PathFinder/pkgutil model validated on materialised trees each run; outside: namespace packages, same-name module+package or source+extension in one directory, .pyc-only, zip, builtin/frozen.', ref='3/C07')
 CHECKS['C09'] = dict(cat='other',
     tech='CrossHair/z3 over the real Project/SourceModule cache logic with symbolic modification times and an in-memory file system; differential: long-lived project under check_changes() vs a fresh Project',
-    text='Bounded symbolic execution: histories of 1..2 rewrites (file and content variant enumerated) over a three-module project with star-import / attribute / from-import / re-export edges, warm-up requests in between; the modification times are solver integers constrained only by "an edit changes the mtime" (backwards and repeating clocks included). Every final request (assist, location, lint) must equal the same request on a new Project. Candidates are replayed on a real directory with os.utime.',
+    text='Bounded symbolic execution: histories of 1..2 rewrites (file and content variant enumerated) over a project a -> b -> c plus a package module pk.d with star-import / attribute / from-import / re-export edges, warm-up requests in between; the modification times are solver integers constrained only by "an edit changes the mtime" (backwards and repeating clocks included). Every final request (9 kinds: assist, location, lint through the importers, on the changed module itself, package listing) must equal the same request on a new Project. Candidates are replayed on a real directory with os.utime.',
     note='file access stubbed in memory; ast.parse/extract run untraced; deletions, __init__ removal, shadowing outside; one known finding (module created after its importer was analysed) is carved out of the query by its history shape.', ref='3/C09')
 CHECKS['C06'] = dict(cat='other',
     tech='CrossHair/z3 solver-enumerated class hierarchies (shape, member kinds and names, import form, queried attribute, access path) through the real assist()/location(); oracle = the classes executed by CPython (__mro__, vars())',
-    text='Solver-enumerated (E) only: each path is one concrete generated project. Within the stated finite family the attribute proposals contain every source-defined attribute along the real MRO (and self-assigned attributes for instances), and go-to-definition lands on an instance assignment if there is one, otherwise on the first class of the real MRO that defines the attribute.',
+    text='Solver-enumerated (E) only: each path is one concrete generated project. Split forms are also asked on a project that has already answered through the other access path; descriptor chains (property, own or inherited __get__) are followed to what the method returns. Within the stated finite family the attribute proposals contain every source-defined attribute along the real MRO (and self-assigned attributes for instances), and go-to-definition lands on an instance assignment if there is one, otherwise on the first class of the real MRO that defines the attribute.',
     note='no symbolic variable survives the parser; in-memory project files; metaclasses, __getattr__, __slots__, setattr, data-descriptor precedence outside.', ref='3/C06')
 CHECKS['C10'] = dict(cat='other',
     tech='CrossHair/z3 solver-enumerated (scope kind, binding kind, name shape, read flag) constructions through the real lint(); oracle = the exemption rule of the property evaluated on the construction',
-    text='Solver-enumerated (E) only: ~370 constructed modules covering 21 binding kinds x 6 scope kinds x name shape x read/never-read; the W01/W02 entries (code, message, line, column) must equal exactly what the rule gives and nothing else may be reported as unused.',
-    note='each path one concrete module; locals(), global/nonlocal redirection and real files outside.', ref='3/C10')
+    text='Solver-enumerated (E) only: ~1380 constructed modules covering 27 binding kinds x 6 scope kinds x name shape x read/never-read x locals() companion (none / unrelated function / nested function calling locals()), plus a symbolic-identifier companion (S); the W01/W02 entries (code, message, line, column) must equal exactly what the rule gives and nothing else may be reported as unused.',
+    note='each path one concrete module; a locals() call in the binding\'s own scope, global/nonlocal redirection and real files outside.', ref='3/C10')
 CHECKS['C15'] = dict(cat='other',
     tech='CrossHair/z3 solver-enumerated request scripts through the real Environment methods, real Server.run/process and real umsgpack over an in-memory connection; oracle = in-process API',
-    text='Solver-enumerated (E) only: all scripts of 1..2 requests and a slice of the 3-request scripts over ten request kinds (valid and failing): each reply equals the in-process result on an identical project (tuples as lists), each failure surfaces as an exception carrying the server message, later replies are unaffected and the server loop keeps accepting.',
+    text='Solver-enumerated (E) only: all scripts of 1..2 requests and a slice of the 3-request scripts over 16 request kinds (valid and failing, incl. tuple/list subclasses in arguments and results), and 360 histories with a failing request and a file edit in either order: each reply equals the in-process result on a new project over the same files (tuples as lists), each failure surfaces as an exception carrying the server message, later replies are unaffected and the server loop keeps accepting.',
     note='in-memory connection pair, Server.run driven one message at a time; real subprocess / sockets / OS failures / multi-MiB payloads outside (payload sizes: C14).', ref='3/C15')
 NA = {}
 
